@@ -46,6 +46,8 @@ def plan(tier, seed):
                 "ops": 300 if q else 3000, "schedules": 6 if q else 40,
                 "sep": 2 if q else 8}
                for p in range(3 if q else 6)]
+    from . import w7
+    shards += w7.plan(tier)
     return shards
 
 
@@ -369,8 +371,13 @@ def check_history_log(ctx, path, pool, frozen):
 
 def run_shard(spec, ctx):
     mods = env.load_repo()
-    {"purity": run_purity, "protected": run_protected,
-     "history": run_history}[spec["kind"]](spec, ctx, mods)
+    if spec["kind"] == "w7":
+        from . import w7
+        purity_mon.install(ctx, mods)
+        w7.run(spec, ctx)
+    else:
+        {"purity": run_purity, "protected": run_protected,
+         "history": run_history}[spec["kind"]](spec, ctx, mods)
     n, problems = shim.fidelity_report()
     ctx.count("noninterference.shims_checked", n)
     if problems:
